@@ -122,7 +122,7 @@ BUS_PROPS = {
     'C14': dict(oracle=lambda F, w: oracle.c14(F),
                 profiles=[('flood_caller', 3), ('flood_handler', 4), ('backlog', 1), ('small_history', 1), ('timeouts', 2), ('timeouts_burn', 3), ('timeout_enum', 2)]),
     'C15': dict(oracle=lambda F, w: oracle.c15(F),
-                profiles=[('idle_race', 4), ('idle_gap', 3), ('idle_dead_loop', 3), ('errors', 1), ('timeouts', 1), ('multi_fwd', 2)]),
+                profiles=[('idle_race', 4), ('idle_gap', 3), ('idle_dead_loop', 3), ('idle_timeouts', 3), ('errors', 1), ('timeouts', 1), ('multi_fwd', 2)]),
     'C17': dict(oracle=lambda F, w: oracle.c17(F, w),
                 profiles=[('wal', 4), ('wal_faults', 3), ('wal_enum', 3)]),
     'C18': dict(oracle=lambda F, w: oracle.c18(F, w),
